@@ -8,17 +8,39 @@ _write_common_metadata, write_row_groups, remove_row_groups) is appended to a gh
 
 remove_row_groups(rgs)      rgs = duplicate-free list of K members of fmd.row_groups: position k holds row group SEL(k),
                             POS(j) = position of row group j in rgs or -1.
-  remove.num_rows_decreases_by_removed       fmd.num_rows' == fmd.num_rows - sum_{k<K} NR(SEL(k))      (loop invariant + exit)
+  remove.num_rows_decreases_by_removed       fmd.num_rows' == fmd.num_rows - sum_{k<K} NR(SEL(k))      (.on_entry / .step = loop invariant)
   remove.row_groups_is_old_minus_chosen      fmd.row_groups' == [old[j] | POS(j) < 0] in the old order   (whole list, Skolem j)
   remove.list_remove_finds_element           list.remove never raises ValueError
-  remove.no_mutation_of_iterated_list        the list that is mutated is not the list that is iterated (aliasing branch)
-  remove.files_removed_are_files_of_chosen   remove_with gets exactly [basepath/file for file in files of the chosen row groups]
-  remove.partial_file_raises_first           foreign ('fastparquet' not in created_by) or 'flat': a file holding chosen AND kept
-                                             row groups makes the call raise before any effect
-  remove.no_kept_file_deleted[...]           no file handed to remove_with holds a kept row group
-  remove.simple_scheme_raises / raise_before_any_effect / metadata_written_iff_write_fmd / sorted_iff_sort_pnames
+  remove.no_mutation_of_iterated_list        the list that is mutated is not the list that is iterated (aliasing branch / deepcopy)
+  remove.files_removed_are_files_of_chosen   remove_with gets [basepath/file for file in files of the CHOSEN row groups] ...
+  remove.files_removed_cover_chosen          ... all of them; remove.remove_with_called_once
+  remove.partial_file_raises_first           ANY dataset: a file holding chosen AND kept row groups makes the call raise before any effect
+  remove.no_kept_file_deleted[foreign or flat | one row group per file | any layout]   no file handed to remove_with holds a kept row
+                                             group; [any layout] = no precondition (was refuted before fix 7ff1610: the check was skipped
+                                             for fastparquet-created hive/drill datasets)
+  remove.simple_scheme_raises / raise_before_any_effect / metadata_written_iff_write_fmd / sorted_iff_sort_pnames /
+  sort_defers_metadata / handle_refreshed_after_update / empty_selection_changes_nothing
 row_groups_map.*            per file f: len(result[f]) == number of members with FILE == f; keys == files of the members
-overwrite.*                 see run_overwrite;   rename.* / part_ids.* / partitions.*  see run_sort
+                            (loop invariant counts_per_file; used as a cut at the two call sites of remove_row_groups)
+overwrite.*
+  overwrite.partition_text_key_order         the new data's partition text is data.loc[:, defined_partitions].astype(str).agg('/'.join, axis=1)
+                                             with the selector BEING the ordered list defined_partitions = list(pf.cats) (columns by
+                                             name in the dataset's partition order; not a mask, not the frame's own order), all rows
+  overwrite.removes_exactly_matching_partitions   rg selected  <=>  partitions(rg, True) in {partition text of a new row}
+  overwrite.selection_ranges_over_all_existing    the filter ranges over all row groups of the dataset as opened
+  overwrite.write_before_remove / metadata_written_last / writes_the_new_data
+  overwrite.simple_scheme_raises / no_partitions_raises / raise_before_any_effect
+partitions.*                None iff the path has no '/'; only_values=False: the directory of the path; True: '/'.join(re.split('/|=', p)[1::2])
+part_ids.*                  keys == part numbers of the referenced files; D[n] == (f, path_f), f the FIRST row group with number n
+rename.* (_sort_part_names) ghost directory map, see run_sort:
+  rename.pass1_targets_fresh / pass1_sources_live / pass2_sources_are_pass1_targets / pass2_targets_free   [any numbering] and
+                                             [part numbers distinct]; pass2_targets_free[any numbering] is REFUTED = known finding
+                                             C09-P-sort-part-names-number-collision (two referenced files in different directories share a number)
+  rename.metadata_follows[...]               EVERY row group whose file is renamed carries the file's final name on all its columns, every
+                                             other row group's path is unchanged; [any files] = files may hold several row groups (was
+                                             refuted before fix 75dfd7f: only the first row group of a renamed file was relabelled)
+  rename.file_stays_in_its_directory / names_are_part_files / paths_under_basepath / metadata_path_is_relative /
+  metadata_written_iff_write_fmd / empty_dataset_untouched
 """
 import ast
 import itertools
@@ -41,9 +63,9 @@ CNT_CH = z3.Function("ChosenRowGroupsInFile", I, I)     # number of chosen row g
 CNT_ALL = z3.Function("RowGroupsInFile", I, I)          # number of row groups of the dataset whose file is f
 SCHEMES = {"simple": 0, "flat": 1, "hive": 2, "drill": 3, "empty": 4, "other": 5}
 
-FID_PARTIAL = "C09-P-remove-partial-file-unguarded"
 FID_COLLIDE = "C09-P-sort-part-names-number-collision"
-FID_MULTIRG = "C09-P-sort-part-names-multi-rg-file-stale-path"
+# repaired in /repo (records `fixed-C09-remove-partial-file` 7ff1610, `fixed-C09-sort-part-names-multi-rg` 75dfd7f): the obligations
+# remove.no_kept_file_deleted[any layout] and rename.metadata_follows[any files] are PROVED now; reverting a fix is a canary
 
 
 # ---- engine extensions ------------------------------------------------------------------------------------------
@@ -397,7 +419,6 @@ class RM:
     def pre():
         c = [RM.N >= 0, RM.K >= 0, RM.K <= RM.N, 0 <= RM.SCHEME, RM.SCHEME <= 5, SUMNR(0) == 0,
              z3.Implies(RM.ALIAS, RM.IS_LIST), z3.Implies(RM.ALIAS, RM.SAME),
-             0 <= RM.jS, RM.jS < RM.N, 0 <= RM.jW, RM.jW < RM.N,
              z3.Implies(RM.K > 0, z3.And(0 <= RM.kW, RM.kW < RM.K))]
         c += RM.pos_facts(RM.jS) + RM.pos_facts(RM.jW)
         c += [z3.Implies(RM.K > 0, z3.And(*RM.sel_facts(RM.kW)))]
@@ -406,7 +427,8 @@ class RM:
         # counting lemmas (pure mathematics about a duplicate-free sub-list of a list), instantiated at (kW, jW)
         f = FILE(SEL(RM.kW))
         c += [z3.Implies(RM.K > 0, z3.And(CNT_CH(f) >= 1, CNT_CH(f) <= CNT_ALL(f),
-                                          z3.Implies(CNT_CH(f) >= CNT_ALL(f), z3.Implies(FILE(RM.jW) == f, POS(RM.jW) >= 0))))]
+                                          z3.Implies(z3.And(CNT_CH(f) >= CNT_ALL(f), 0 <= RM.jW, RM.jW < RM.N),
+                                                     z3.Implies(FILE(RM.jW) == f, POS(RM.jW) >= 0))))]
         return c
 
 
@@ -749,7 +771,7 @@ def run_remove(ctx, funcs, timeout):
     rets = [q for q in outs if q.ctl[0] == "ret"]
     raises = [q for q in outs if q.ctl[0] == "raise"]
     GUARDED = z3.Or(z3.Not(RM.IS_FP), RM.SCHEME == SCHEMES["flat"])
-    KEPT = POS(RM.jW) < 0           # jW is an arbitrary KEPT row group (hypothesis of the goals that mention it, not a precondition)
+    KEPT = z3.And(0 <= RM.jW, RM.jW < RM.N, POS(RM.jW) < 0)           # jW is an arbitrary KEPT row group (hypothesis of the goals that mention it, not a precondition)
     one_per_file = z3.Implies(FILE(RM.jW) == FILE(SEL(RM.kW)), RM.jW == SEL(RM.kW))
     for q in raises:
         ok = not effects(q)
@@ -767,7 +789,7 @@ def run_remove(ctx, funcs, timeout):
             must_fail += 1
         v = q.ghost["fmd.rgs"]
         if isinstance(v, Custom) and isinstance(v.h, RList):
-            pose("remove.row_groups_is_old_minus_chosen", q, [], z3.Select(v.h.rem(q), RM.jS) == (POS(RM.jS) >= 0),
+            pose("remove.row_groups_is_old_minus_chosen", q, [0 <= RM.jS, RM.jS < RM.N], z3.Select(v.h.rem(q), RM.jS) == (POS(RM.jS) >= 0),
                  "fmd.row_groups afterwards is the old list without exactly the chosen row groups, order kept (posed at a Skolem member)",
                  (RM.jS, POS(RM.jS)))
         else:
@@ -792,8 +814,9 @@ def run_remove(ctx, funcs, timeout):
             res.add("remove.empty_selection_changes_nothing", PROVED if ok else REFUTED, {"effects": str(kinds)} if not ok else None, 0.0, "trace",
                     "with nothing chosen neither the list nor any data file is touched")
             continue
-        pose("remove.partial_file_raises_first", q, [GUARDED, KEPT], FILE(RM.jW) != FILE(SEL(RM.kW)),
-             "foreign or 'flat' dataset: if the call gets as far as changing anything, no file holds both a chosen and a kept row group")
+        pose("remove.partial_file_raises_first", q, [KEPT], FILE(RM.jW) != FILE(SEL(RM.kW)),
+             "ANY dataset: if the call gets as far as changing anything, no file holds both a chosen and a kept row group "
+             "(a file holding both makes the call raise before any effect)")
         n_rw = kinds.count("remove_with")
         res.add("remove.remove_with_called_once", PROVED if n_rw == 1 else REFUTED, {"effects": str(kinds)} if n_rw != 1 else None, 0.0, "trace",
                 "remove_with is called exactly once on a non-empty selection")
@@ -978,6 +1001,17 @@ class ORgs:
     def truth(self, eng, p):
         return OW.N > 0
 
+    def slice(self, eng, p, lo, hi, node):
+        return Custom(PartOfRgs())
+
+    def getitem(self, eng, p, i, node):
+        return Custom(RGV(eng.as_int(i)))
+
+
+class PartOfRgs:
+    """a slice of pf.row_groups: not the whole list"""
+    tracked = False
+
 
 class OPF:
     tracked = False
@@ -1042,7 +1076,7 @@ def run_overwrite(ctx, funcs, timeout):
                                      "reset_row_idx": h_reset, "reversed": lambda e, p, a, k, n: [(p, Opaque(("reversed", next(e.counter))))]},
               opaque_calls=True)
     p = Path()
-    p.pc += [OW.N >= 0, OW.NPART >= 0, 0 <= OW.SCHEME, OW.SCHEME <= 5, 0 <= OW.jA, OW.jA < OW.N]
+    p.pc += [OW.N >= 0, OW.NPART >= 0, 0 <= OW.SCHEME, OW.SCHEME <= 5]
     outs = eng.run("overwrite", p, [Opaque("dirpath"), Custom(FrameV())],
                    {"open_with": Opaque("func:open_with"), "mkdirs": NONE, "remove_with": NONE})
     discharge_engine(eng, res, "overwrite.", timeout)
@@ -1086,6 +1120,7 @@ def run_overwrite(ctx, funcs, timeout):
         if not whole:
             continue
         r = q.fork()
+        r.pc += [0 <= OW.jA, OW.jA < OW.N]
         try:
             z = eng.truth(fv.lam.apply(eng, r, [Custom(RGV(OW.jA))]), r)
         except Unsupported as ex:
@@ -1542,7 +1577,12 @@ def sort_handlers():
         if len(args) == 1 and not kw and isinstance(v, Custom) and isinstance(v.h, PathV):
             return [(p, Opt(DIR(v.h.j) == 0, Custom(DirV(v.h.j))))]
         raise Unsupported("partitions(...) in the rename plan")
-    return {"listcomp": h_listcomp, "dictcomp": h_dictcomp, "reversed": h_reversed, "enumerate": h_enumerate, "PART_ID.match": h_match,
+    def h_map(eng, p, args, kw, node):
+        v = args[0]
+        if len(args) == 1 and isinstance(v, Custom) and isinstance(v.h, SRgs):
+            return [(p, Custom(SortMap(v.h.n)))]
+        raise Unsupported("row_groups_map(...) in the rename plan")
+    return {"row_groups_map": h_map, "listcomp": h_listcomp, "dictcomp": h_dictcomp, "reversed": h_reversed, "enumerate": h_enumerate, "PART_ID.match": h_match,
             ".match": h_match, "filter": h_filter, "dict": h_dict, "partitions": h_partitions, "join_path": h_join_path}
 
 
@@ -1588,6 +1628,58 @@ def run_part_ids(ctx, funcs, timeout):
         ctx.engine_error("part_ids: no returning path")
     ctx.vacuity["covers"] += len(rets)
     return res
+
+
+def same_file(a, b):
+    return z3.And(DIR(a) == DIR(b), NUM(a) == NUM(b))         # FILE(a) == FILE(b): a path is <DIR>/part.<NUM>.parquet
+
+
+class SortMap:
+    """row_groups_map(fmd.row_groups) in the rename plan (contract posed on its real source as row_groups_map.*):
+    M[path] is the list of ALL row groups of the dataset whose columns[0].file_path is that path"""
+    tracked = False
+
+    def __init__(self, n):
+        self.n = n
+
+    def getitem(self, eng, p, i, node):
+        if isinstance(i, Custom) and isinstance(i.h, PathV):
+            return Custom(FileMembers(self.n, i.h.j))
+        raise Unsupported("row_groups_map result indexed by a non-path")
+
+
+class FileMembers:
+    """the row groups whose file is the file of row group jf: the loop body is run for ONE arbitrary member m (fresh; nothing but the
+    loop variables may be assigned, so there is no state to carry); a file_path store is recorded as 'for EVERY member m'"""
+    tracked = False
+
+    def __init__(self, n, jf):
+        self.n, self.jf = n, jf
+
+    def for_loop(self, eng, p, st):
+        m = eng.fresh_int("m_member")
+        mine = [z3.And(0 <= m, m < self.n, same_file(m, self.jf))]
+        p.pc += mine
+        n_eff, env0 = len(effects(p)), dict(p.env)
+        stored = {nd.id for nd in ast.walk(ast.Module(body=st.body, type_ignores=[])) if isinstance(nd, ast.Name) and isinstance(nd.ctx, ast.Store)}
+        qs = eng.assign(st.target, Custom(SRGV(m)), p)
+        outs = eng.block(st.body, qs)
+        if len(outs) != 1 or outs[0] is not p or p.ctl not in (None, "continue"):
+            raise Unsupported("loop over the row groups of a file forks or leaves early")
+        p.ctl = None
+        for k, v in p.env.items():
+            if k not in _names(st.target) | stored and env0.get(k) is not v:
+                raise Unsupported("loop over the row groups of a file assigns " + k)
+        new = effects(p)[n_eff:]
+        del effects(p)[n_eff:]
+        for ef in new:
+            if ef[0] != "set_file_path" or ef[2] != "every" or not z3.simplify(ef[1]).eq(m):
+                raise Unsupported("loop over the row groups of a file has another effect: " + ef[0])
+            effects(p).append(("set_file_path_members", self.jf, m, ef[3]))
+        p.pc = [c for c in p.pc if not any(c is x for x in mine)]
+        for k in _names(st.target) | stored:
+            p.env[k] = Opaque(("after_loop", k, next(eng.counter)))
+        return [p]
 
 
 class FSV:
@@ -1700,17 +1792,23 @@ def check_plan(ctx, eng, q, passes, res, timeout):
         ent = {}
         for X in "AB":
             ren = [e for e in ps[X]["effects"] if e[0] == "rename"]
-            upd = [e for e in ps[X]["effects"] if e[0] == "set_file_path"]
-            other = [e for e in ps[X]["effects"] if e[0] not in ("rename", "set_file_path")]
+            upd = [e for e in ps[X]["effects"] if e[0] in ("set_file_path", "set_file_path_members")]
+            other = [e for e in ps[X]["effects"] if e[0] not in ("rename", "set_file_path", "set_file_path_members")]
             if len(ren) != 1 or other:
                 raise Unsupported("a pass of the plan does not issue exactly one rename per key")
             s_, t_ = to_name(eng, ren[0][1]), to_name(eng, ren[0][2])
-            us = [(e[1], to_name(eng, e[3]), e[2]) for e in upd]
+            # an update = (hits(j) : does it store to row group j, value NameV (may mention the member variable), all columns?, member var)
+            us = []
+            for e in upd:
+                if e[0] == "set_file_path":
+                    us.append(((lambda j, r_=e[1]: r_ == j), to_name(eng, e[3]), e[2] == "every", None))
+                    terms.append(e[1])
+                else:
+                    us.append(((lambda j, jf=e[1]: z3.And(0 <= jf, jf < N, same_file(j, jf))), to_name(eng, e[3]), True, e[2]))
+                    terms.append(e[1])
             if s_ is None or t_ is None or any(u[1] is None for u in us):
                 shape_ok = False
             ent[X] = (ps[X]["guard"], s_, t_, us)
-            for u in us:
-                terms.append(u[0])
         rec.append(ent)
     if not shape_ok:
         res.add("rename.names_are_part_files", REFUTED, None, 0.0, "trace", "every renamed path is [basepath/]<directory of the file>/part.<n>.parquet[.tmp]")
@@ -1718,7 +1816,7 @@ def check_plan(ctx, eng, q, passes, res, timeout):
     res.add("rename.names_are_part_files", PROVED, None, 0.0, "trace", "every renamed path is [basepath/]<directory of the file>/part.<n>.parquet[.tmp]")
     based = all(ent[X][1].based and ent[X][2].based for ent in rec for X in "AB")
     res.add("rename.paths_under_basepath", PROVED if based else REFUTED, None, 0.0, "trace", "source and target of every fs.rename are below basepath")
-    rel = all(not u[1].based and u[2] == "every" for ent in rec for X in "AB" for u in ent[X][3])
+    rel = all(not u[1].based and u[2] for ent in rec for X in "AB" for u in ent[X][3])
     res.add("rename.metadata_path_is_relative", PROVED if rel else REFUTED, None, 0.0, "trace",
             "file_path is set on EVERY column of the row group, to a path relative to the dataset root")
 
@@ -1829,13 +1927,18 @@ def check_plan(ctx, eng, q, passes, res, timeout):
     moved = z3.And(G(0, "B"), eqn(rec[0]["B"][1], orig(j0)))
     chain = z3.And(*[eqn(rec[pi + 1]["B"][1], rec[pi]["B"][2]) for pi in range(P - 1)]) if P > 1 else z3.BoolVal(True)
     final = last["B"][2]
+    def val_at(u, j):         # the stored value for row group j (the member variable of a 'for every member' store replaced by j)
+        if u[3] is None:
+            return u[1]
+        sub = lambda t: z3.substitute(t, (u[3], j)) if z3.is_expr(t) else t
+        return NameV(u[1].based, sub(u[1].d), sub(u[1].num), sub(u[1].kind))
     upd_B = [u for pi in range(P) for u in rec[pi]["B"][3]]
-    hits = z3.Or(*[z3.And(u[0] == j0, eqn(u[1], final)) for u in upd_B]) if upd_B else z3.BoolVal(False)
+    hits = z3.Or(*[z3.And(u[0](j0), eqn(val_at(u, j0), final)) for u in upd_B]) if upd_B else z3.BoolVal(False)
     consistent = []
     for pi in range(P):
         for X in "AB":
             for u in rec[pi][X][3]:
-                consistent.append(z3.Implies(z3.And(G(pi, X), u[0] == j0), z3.If(moved, eqn(u[1], final), eqn(u[1], orig(j0)))))
+                consistent.append(z3.Implies(z3.And(G(pi, X), u[0](j0)), z3.If(moved, eqn(val_at(u, j0), final), eqn(val_at(u, j0), orig(j0)))))
     goal = z3.And(z3.Implies(moved, z3.And(chain, hits)), *consistent)
     for vname, vh in (("[any numbering]", single), ("[any files]", distinct), ("[part numbers distinct, one row group per file]", distinct + single)):
         st, m, secs = solve(cs0 + vh + bind + [z3.Not(goal)], timeout)
@@ -1845,7 +1948,11 @@ def check_plan(ctx, eng, q, passes, res, timeout):
             for t in terms[:5]:
                 mdl[f"row_group {mval(m, t)}"] = f"dir {mval(m, DIR(t))} / part.{mval(m, NUM(t))}.parquet"
         res.add("rename.metadata_follows" + vname, st, mdl, secs, "z3",
-                "for EVERY row group: if its file is moved by the plan, all its columns' file_path becomes the file's final name; otherwise it keeps its path")
+                "for EVERY row group j: if j's file is moved by the plan (whichever of the file's row groups j is), all of j's columns get the "
+                "file's final name as file_path; any store that reaches a row group whose file is NOT moved writes its old path (= unchanged)")
+    st, m, secs = solve(cs0 + distinct + single + bind + [moved, z3.Not(z3.And(final.d == DIR(j0), final.kind == FINAL))], timeout)
+    res.add("rename.file_stays_in_its_directory", st, {"z3_model": str(m)[:300]} if m is not None else None, secs, "z3",
+            "a moved file ends as part.<n>.parquet in the directory it was in (the partition of its row groups does not change)")
     # vacuity: the plan can be non-empty and a wrong claim is refutable
     if solve(cs0 + distinct + single + [G(0, "A")], timeout)[0] == REFUTED:
         ctx.vacuity["requires_sat"] += 1
@@ -1886,7 +1993,28 @@ def check(ctx, timeout, only=None):
 ASSUMED = [
     "different row groups of one dataset never compare equal (they differ in file path or offsets), so list.remove(rg) removes rg itself; "
     "list.remove(x) removes the first element equal to x, keeps the order of the others, raises ValueError when there is none",
-    "remove_row_groups is called with a duplicate-free selection of members of fmd.row_groups",
+    "remove_row_groups is called with a duplicate-free selection of members of fmd.row_groups; reading fmd.row_groups may return the SAME "
+    "list object every time (worst case for aliasing; the real ThriftObject builds a fresh list per access)",
     "counting lemmas (mathematics): for a duplicate-free sub-list S of a list L and every file f, #S(f) <= #L(f), with equality exactly "
     "when every member of L with file f is in S; a per-file count is positive exactly when some member has that file",
+    "row_groups_map's contract (posed on its real source as row_groups_map.*) is used at its two call sites in remove_row_groups",
+    "overwrite: ParquetFile(dirpath).cats lists the partition columns in the dataset's partition order (= directory nesting order of the "
+    "hive paths); pf.row_groups is the list bound when the dataset was opened and write_row_groups rebinds fmd.row_groups without "
+    "mutating it (the lazy filter is consumed only inside remove_row_groups)",
+    "pandas: frame.loc[:, names] selects all rows and the columns BY NAME IN THE ORDER of `names`; .astype(str).agg('/'.join, axis=1) is, "
+    "per row, the '/'-joined str() of the values in column order; pd.unique keeps exactly the distinct texts; filter(f, xs) yields the "
+    "members of xs on which f is true",
+    "partitions(rg, True) of a hive path 'k1=v1/../kn=vn/file' (keys and values free of '/' and '=') is 'v1/../vn' "
+    "(re.split('/|=', path)[1::2] are the values in nesting order); str.rsplit('/', 1)[0] of 'd/name' is d",
+    "every referenced path of a dataset handed to _sort_part_names is '<dir>/part.<n>.parquet' (PART_ID.match(path)['i'] is the decimal "
+    "n; a path that does not match makes part_ids raise before any rename); 'part.<n>.parquet' is injective in n and never equals a "
+    "'.tmp' name; a file name is (directory, base name); util.join_path joins its non-empty components with '/'",
+    "row_groups_map's contract is also the cut at its call site in _sort_part_names: files_rgs[path] lists ALL row groups whose "
+    "columns[0].file_path is that path (two referenced paths are the same text iff directory and part number agree)",
+    "a dict comprehension keeps, for equal keys, the value of the LAST iterated item; dict(filter(f, d.items())) has the items of d on which "
+    "f is true; both passes iterate that dict in the same order; a non-empty finite set of positions has a greatest element",
+    "fs.rename(src, dst) moves the live file src to dst (silently replacing a live dst: hence 'target free'); before the call directory and "
+    "summary agree: the live part files are exactly the referenced ones and there is no '*.parquet.tmp'",
+    "rename-plan obligations instantiate universally quantified hypotheses (all other renames / all positions) at two arbitrary instances; "
+    "this keeps PROVED sound; a REFUTED is triaged natively (tools/c09edits_native.py: the collision counter-model is confirmed; the two repaired defects are asserted gone)",
 ]
